@@ -475,6 +475,75 @@ func checkC01(e *core.Env) {
 		}
 	})
 
+	// several large messages in a row (the generated scripts above carry at most one per direction): each frame
+	// is still being decoded by the receiver while the transport already reads the next one
+	e.Cases("consecutive-large", e.N(12, 80), func(i int, r *rand.Rand) {
+		kind := Kind(1 + i%3)
+		for _, c := range cs.list {
+			sc := genDeliveryScript(r, kind, c.HTTP, false)
+			sc.MutateAfterSend = false
+			if kind.ServerStreams() {
+				// at least four replies, sent back to back at the end
+				for n := 0; n < 4; n++ {
+					sc.Handler = append(sc.Handler, Op{Op: "send"})
+				}
+			}
+			k := 0
+			enlarge := func(ops []Op) {
+				for j := range ops {
+					if ops[j].Op == "send" && k < 16 {
+						sz := pick(r, 64<<10-1, 64<<10, 64<<10+1, 100000, 200000, 300000, 1<<20) + r.Intn(9)
+						m := &tpb.Message{Payload: randBytes(r, sz), Count: int32(k)}
+						ops[j].Msg, ops[j].MsgD = m, msgDesc(m)
+						k++
+					}
+				}
+			}
+			enlarge(sc.Sender)
+			k = 0
+			enlarge(sc.Handler)
+			e.Count("large_frame_scripts", 1)
+			runOne(c, sc)
+		}
+	})
+
+	// a garbage collection while the caller is blocked in its last receive (nothing refers to the stream after
+	// it, as in generated CloseAndRecv code): everything the handler then sends is still delivered
+	e.Cases("gc-during-receive", e.N(9, 60), func(i int, r *rand.Rand) {
+		c := cs.list[i%len(cs.list)]
+		kind := pick(r, ClientStream, ServerStream, Bidi)
+		sc := genDeliveryScript(r, kind, true, false)
+		run, got, err, ok := gcSchedule(e, "C01", c, sc)
+		if !ok {
+			return
+		}
+		e.Eval(fmt.Sprintf("gc|%s|%s", c.Name, kind), true)
+		e.Count("gc_schedules", 1)
+		var sent []*tpb.Message
+		for _, o := range sc.Handler {
+			if o.Op == "send" {
+				sent = append(sent, o.Msg)
+			}
+		}
+		prob := ""
+		switch {
+		case err != nil:
+			prob = fmt.Sprintf("the final receive failed with %v after %d of %d messages", err, len(got), len(sent))
+		case len(got) != len(sent):
+			prob = fmt.Sprintf("the client drained the stream and holds %d messages, the handler sent %d", len(got), len(sent))
+		default:
+			for j := range got {
+				if !sameMsg(got[j], sent[j]) {
+					prob = fmt.Sprintf("client received #%d = {%s}, handler sent {%s}", j, msgDesc(got[j]), msgDesc(sent[j]))
+					break
+				}
+			}
+		}
+		if prob != "" {
+			e.Violate(fmt.Sprintf("delivery/%s/%s/gc-during-receive", c.Name, kind), "a garbage collection ran while the client was blocked in its last receive; the handler then sent its messages and returned nil: "+prob, witness(run))
+		}
+	})
+
 	if e.Thorough() {
 		// very large payloads
 		e.Cases("huge", 6, func(i int, r *rand.Rand) {
